@@ -36,6 +36,16 @@ def check(rep, ctx):
     R_D = rep.rule("C01-d-time", "time writers are exact on their value type (no float on 64-bit durations, no "
                    "truncation of inexact floats)", floor=200,
                    necessary_because="timedelta(milliseconds=2**53+1) is a canonical i64Timedelta and is written as 2**53")
+    R_L = rep.rule("C01-e-call-local", "encode/decode of one instance uses only state created in that call: no buffer or container is "
+                   "allocated while the cached reader/writer closures are built", floor=0,
+                   necessary_because="a buffer captured by a cached closure carries bytes from a failed or concurrent call into the next encode")
+    from .streams import site_loc, stmt_at
+    for side, cls_, site in W.bundle["factory"]["allocs"]:
+        where, fn = site_loc(ctx, site)
+        rep.check(R_L, False, construct=fn, stmt=stmt_at(ctx, site),
+                  message=f"a scratch buffer is allocated while the cached {side} plan of {cls_} is built: what an earlier (failed) call left in it "
+                          f"is emitted by the next encode of the same class, so decode(encode(x)) != x", **where)
+    rep.count(R_L, 1, instance="factory-log")
     R_P = rep.rule("C01-plan", "reader and writer plans can be derived", floor=1600)
     for key, cls, plan in W.classes():
         if not rep.check(R_P, not plan["error"], construct=key, stmt=str(plan.get("error")),
